@@ -116,6 +116,8 @@ Definition push_quic_transport_parameters (p : tparams) : list chunk :=
 (* ---------- executable interface -------------------------------------------------------
      0 n b..            pull_quic_transport_parameters
      1 cap k entries..  push into Buffer(capacity=cap); entry = id kind payload
+     2 n b..            pull, shown as the dataclass (every attribute, 0 | 1 payload)
+     3 cap record       push of a dataclass given attribute by attribute
    value tokens: kind 0: v | 1: n b.. | 2: (nothing) | 3: has4 [4 bytes port] has6 [16 bytes port] n cid.. n tok..
                  | 4: chosen n avail.. *)
 Definition out_addr (o : option (list Z * Z)) : list Z :=
@@ -161,11 +163,142 @@ Fixpoint tk_tparams (n : nat) (t : list Z) : tparams :=
   | _, _ => []
   end.
 
+(* ---------- the dataclass view (added for the round-trip theorem) -------------------------
+   QuicTransportParameters as a record, one field per dataclass attribute, in the order of the
+   dataclass (= the order of PARAMS).  `disable_active_migration: Optional[bool] = False` is the only
+   attribute with three values: None and False are both "not sent"; pull starts from
+   QuicTransportParameters() (False) and sets True when the parameter is present. *)
+Definition addr := option (list Z * Z).
+Definition pref := (addr * addr * list Z * list Z)%type.    (* ipv4, ipv6, connection_id, stateless_reset_token *)
+Definition verinfo := (Z * list Z)%type.                     (* chosen_version, available_versions *)
+
+Record qtp := mkQtp {
+  q_original_destination_connection_id : option (list Z);
+  q_max_idle_timeout : option Z;
+  q_stateless_reset_token : option (list Z);
+  q_max_udp_payload_size : option Z;
+  q_initial_max_data : option Z;
+  q_initial_max_stream_data_bidi_local : option Z;
+  q_initial_max_stream_data_bidi_remote : option Z;
+  q_initial_max_stream_data_uni : option Z;
+  q_initial_max_streams_bidi : option Z;
+  q_initial_max_streams_uni : option Z;
+  q_ack_delay_exponent : option Z;
+  q_max_ack_delay : option Z;
+  q_disable_active_migration : option bool;
+  q_preferred_address : option pref;
+  q_active_connection_id_limit : option Z;
+  q_initial_source_connection_id : option (list Z);
+  q_retry_source_connection_id : option (list Z);
+  q_version_information : option verinfo;
+  q_max_datagram_frame_size : option Z;
+  q_quantum_readiness : option (list Z)
+}.
+
+Definition opt_pv {A} (f : A -> pval) (o : option A) : option pval :=
+  match o with Some a => Some (f a) | None => None end.
+Definition pv_pref (p : pref) : pval := let '(a4, a6, cid, tok) := p in PPref a4 a6 cid tok.
+Definition pv_ver (v : verinfo) : pval := PVer (fst v) (snd v).
+Definition pv_flag (o : option bool) : option pval :=
+  match o with Some true => Some PTrue | _ => None end.       (* `is not None and is not False` *)
+
+(* getattr(params, name) for every PARAMS entry, in PARAMS order *)
+Definition qtp_fields (r : qtp) : list (option pval) :=
+  [ opt_pv PBytes (q_original_destination_connection_id r); opt_pv PInt (q_max_idle_timeout r);
+    opt_pv PBytes (q_stateless_reset_token r); opt_pv PInt (q_max_udp_payload_size r);
+    opt_pv PInt (q_initial_max_data r); opt_pv PInt (q_initial_max_stream_data_bidi_local r);
+    opt_pv PInt (q_initial_max_stream_data_bidi_remote r); opt_pv PInt (q_initial_max_stream_data_uni r);
+    opt_pv PInt (q_initial_max_streams_bidi r); opt_pv PInt (q_initial_max_streams_uni r);
+    opt_pv PInt (q_ack_delay_exponent r); opt_pv PInt (q_max_ack_delay r);
+    pv_flag (q_disable_active_migration r); opt_pv pv_pref (q_preferred_address r);
+    opt_pv PInt (q_active_connection_id_limit r); opt_pv PBytes (q_initial_source_connection_id r);
+    opt_pv PBytes (q_retry_source_connection_id r); opt_pv pv_ver (q_version_information r);
+    opt_pv PInt (q_max_datagram_frame_size r); opt_pv PBytes (q_quantum_readiness r) ].
+
+(* the association list of the attributes that are set, in table order *)
+Fixpoint entries (ks : list (Z * Z)) (fs : list (option pval)) : tparams :=
+  match ks, fs with
+  | (id, _) :: ks', Some v :: fs' => (id, v) :: entries ks' fs'
+  | _ :: ks', None :: fs' => entries ks' fs'
+  | _, _ => []
+  end.
+
+Definition tp_of_qtp (r : qtp) : tparams := entries PARAMS (qtp_fields r).
+
+Definition get_int (id : Z) (p : tparams) : option Z :=
+  match assoc id p with Some (PInt v) => Some v | _ => None end.
+Definition get_bytes (id : Z) (p : tparams) : option (list Z) :=
+  match assoc id p with Some (PBytes b) => Some b | _ => None end.
+Definition get_pref (id : Z) (p : tparams) : option pref :=
+  match assoc id p with Some (PPref a4 a6 cid tok) => Some (a4, a6, cid, tok) | _ => None end.
+Definition get_ver (id : Z) (p : tparams) : option verinfo :=
+  match assoc id p with Some (PVer c a) => Some (c, a) | _ => None end.
+Definition get_flag (id : Z) (p : tparams) : option bool :=
+  match assoc id p with Some _ => Some true | None => Some false end.
+
+(* the object pull_quic_transport_parameters returns: QuicTransportParameters() + setattr per entry *)
+Definition qtp_of_tp (p : tparams) : qtp :=
+  mkQtp (get_bytes 0x00 p) (get_int 0x01 p) (get_bytes 0x02 p) (get_int 0x03 p) (get_int 0x04 p)
+        (get_int 0x05 p) (get_int 0x06 p) (get_int 0x07 p) (get_int 0x08 p) (get_int 0x09 p)
+        (get_int 0x0A p) (get_int 0x0B p) (get_flag 0x0C p) (get_pref 0x0D p) (get_int 0x0E p)
+        (get_bytes 0x0F p) (get_bytes 0x10 p) (get_ver 0x11 p) (get_int 0x20 p) (get_bytes 0x0C37 p).
+
+Definition pull_qtp (bs : list Z) : Res qtp :=
+  p <- pull_quic_transport_parameters bs ;; Ok (qtp_of_tp p).
+Definition push_qtp (r : qtp) : list chunk := push_quic_transport_parameters (tp_of_qtp r).
+
+(* record <-> tokens: every field as 0 | 1 payload, in record order *)
+Definition out_o {A} (f : A -> list Z) (o : option A) : list Z :=
+  match o with None => [0] | Some a => 1 :: f a end.
+Definition out_pref (p : pref) : list Z :=
+  let '(a4, a6, cid, tok) := p in out_addr a4 ++ out_addr a6 ++ out_bytes cid ++ out_bytes tok.
+Definition out_ver (v : verinfo) : list Z := fst v :: out_bytes (snd v).
+Definition out_qtp (r : qtp) : list Z :=
+  let i := out_o (fun v : Z => [v]) in
+  let b := out_o out_bytes in
+  b (q_original_destination_connection_id r) ++ i (q_max_idle_timeout r) ++ b (q_stateless_reset_token r) ++
+  i (q_max_udp_payload_size r) ++ i (q_initial_max_data r) ++ i (q_initial_max_stream_data_bidi_local r) ++
+  i (q_initial_max_stream_data_bidi_remote r) ++ i (q_initial_max_stream_data_uni r) ++
+  i (q_initial_max_streams_bidi r) ++ i (q_initial_max_streams_uni r) ++ i (q_ack_delay_exponent r) ++
+  i (q_max_ack_delay r) ++ out_o (fun x : bool => [b2z x]) (q_disable_active_migration r) ++
+  out_o out_pref (q_preferred_address r) ++ i (q_active_connection_id_limit r) ++
+  b (q_initial_source_connection_id r) ++ b (q_retry_source_connection_id r) ++
+  out_o out_ver (q_version_information r) ++ i (q_max_datagram_frame_size r) ++ b (q_quantum_readiness r).
+
+Definition tk_o {A} (f : list Z -> A * list Z) (t : list Z) : option A * list Z :=
+  match t with
+  | 0 :: t' => (None, t')
+  | _ :: t' => let '(a, t'') := f t' in (Some a, t'')
+  | [] => (None, [])
+  end.
+Definition tk_int (t : list Z) : Z * list Z := match t with v :: t' => (v, t') | [] => (0, []) end.
+Definition tk_bool (t : list Z) : bool * list Z := match t with v :: t' => (z2b v, t') | [] => (false, []) end.
+Definition tk_pref (t : list Z) : pref * list Z :=
+  let '(a4, t1) := tk_addr 4 t in
+  let '(a6, t2) := tk_addr 16 t1 in
+  let '(cid, t3) := tk_list t2 in
+  let '(tok, t4) := tk_list t3 in ((a4, a6, cid, tok), t4).
+Definition tk_ver (t : list Z) : verinfo * list Z :=
+  let '(c, t1) := tk_int t in let '(a, t2) := tk_list t1 in ((c, a), t2).
+
+Definition tk_qtp (t : list Z) : qtp :=
+  let i := tk_o tk_int in
+  let b := tk_o tk_list in
+  let '(f0, t) := b t in let '(f1, t) := i t in let '(f2, t) := b t in let '(f3, t) := i t in
+  let '(f4, t) := i t in let '(f5, t) := i t in let '(f6, t) := i t in let '(f7, t) := i t in
+  let '(f8, t) := i t in let '(f9, t) := i t in let '(f10, t) := i t in let '(f11, t) := i t in
+  let '(f12, t) := tk_o tk_bool t in let '(f13, t) := tk_o tk_pref t in let '(f14, t) := i t in
+  let '(f15, t) := b t in let '(f16, t) := b t in let '(f17, t) := tk_o tk_ver t in
+  let '(f18, t) := i t in let '(f19, _) := b t in
+  mkQtp f0 f1 f2 f3 f4 f5 f6 f7 f8 f9 f10 f11 f12 f13 f14 f15 f16 f17 f18 f19.
+
 Definition exec_tparams (toks : list Z) : list Z :=
   match toks with
   | 0 :: t => let '(bs, _) := tk_list t in out_res out_tparams (pull_quic_transport_parameters bs)
   | 1 :: cap :: k :: t =>
       out_res out_bytes (w_chunks cap [] (push_quic_transport_parameters (tk_tparams (Z.to_nat k) t)))
+  | 2 :: t => let '(bs, _) := tk_list t in out_res out_qtp (pull_qtp bs)
+  | 3 :: cap :: t => out_res out_bytes (w_chunks cap [] (push_qtp (tk_qtp t)))
   | _ => []
   end.
 (* EXTRACT: exec_tparams *)
